@@ -3,6 +3,7 @@
 -/
 import VerdeModel.Lemmas.MinMax
 import VerdeModel.Lemmas.Coords
+import VerdeModel.Gen.Coords
 namespace Verde.C13
 open Verde
 
@@ -127,6 +128,11 @@ theorem scatter_points_inside (w e s n : Rat) (hwe : w ≤ e) (hsn : s ≤ n) (u
     simp only [scatterAxis, List.mem_map] at hx
     obtain ⟨u, hu, rfl⟩ := hx
     exact scatter_inside s n u hsn (hun u hu).1 (hun u hu).2
+
+/-- Bridge: `pad_region` as regenerated from /repo's source text equals the model's. -/
+theorem gen_pad_region_eq_model (r : Region) (pn pe : Rat) :
+    Gen.padRegion r.w r.e r.s r.n pn pe =
+      ((padRegion r pn pe).w, (padRegion r pn pe).e, (padRegion r pn pe).s, (padRegion r pn pe).n) := rfl
 
 /-- `pad_region` moves each bound outwards by the (north, east) amounts … -/
 theorem pad_outwards (r : Region) (pn pe : Rat) :
